@@ -98,7 +98,8 @@ ListQOps == IF ISA = "x86"
           <<Mem("x", "imd", "", "1", "t", "f")>>, << >> >>
 ListQNames == IF ISA = "x86"
   THEN << <<"o", "p">>, <<"O", "P">>, <<"o", "p", "q">>, <<"O", "P", "Q">>, <<"o", "P", "q">>, <<"o", "p", "Q">>,
-          <<"o", "p", "q", "s">>, <<"o", "p", "s", "q">>, <<"o", "p", "x">> >>
+          <<"o", "p", "q", "s">>, <<"o", "p", "s", "q">>, <<"o", "p", "x">>,
+          <<"o", "p", "b">>, <<"o", "p", "w">>, <<"o", "p", "l">>, <<"o", "p", "t">> >>
   ELSE << <<"o", "p">>, <<"O", "P">>, <<"o", "p", ".", "s">>, <<"O", "p", ".", "S">>, <<"o", "p", ".", "d">>,
           <<"o", "p", ".", "s", ".", "x">>, <<"o", "p", "s">> >>
 
